@@ -502,7 +502,7 @@ class AxiFabric:
     """
 
     def __init__(self, name, kind, module, masters, slaves, decs, lean_open, full=False, alphabet=None, env=None,
-                 limit=None, domain=True, fast=True, env_kw=None):
+                 limit=None, domain=True, fast=True, env_kw=None, monitored=True):
         self.name, self.kind, self.module = name, kind, module
         self.masters, self.slaves, self.decs = masters, slaves, decs
         self.n, self.m = len(masters), len(slaves)
@@ -513,6 +513,7 @@ class AxiFabric:
         self.addr_shift = (self.data_width // 8).bit_length() - 1
         self.limit = limit
         self.domain = domain
+        self.monitored = monitored      # False: ill-formed configuration (overlapping address map): no property to check
         try:
             nl = FastNetlist(module) if fast else Netlist(module)
         except Unsupported:
@@ -630,8 +631,9 @@ class AxiFabric:
         return outs
 
     def model_letter(self, letter):
-        """The letter the model is given = what was actually driven (after the limiter)."""
-        return self._letter
+        """The letter the model is given = what was actually driven (after the mode-A limiter; `explore.coexplore`
+        asks right after the step, `explore.cosim` — no limiter there — after the whole run)."""
+        return letter if self.limit is None else self._letter
 
     def nontrivial(self, letter, outs):
         """Some handshake happens at a slave port or at a master port."""
@@ -674,7 +676,7 @@ class AxiFabric:
         return self._env.next_letter(rng, t, self.last)
 
     def monitor(self):
-        return AxiMonitor(self)
+        return AxiMonitor(self) if self.monitored else NullMonitor()
 
     def crosscheck(self, rng, cycles=150):
         """Compiled evaluator against the repository's Evaluator on random letters (all input lines random)."""
@@ -898,8 +900,11 @@ class AxiEnv:
             for j in range(self.m):
                 ex = []
                 for _ in range(12):
-                    a = ((inst.decs[j].example(rng, inst.bus) << sh) | rng.getrandbits(sh)) & mask if sh else \
-                        inst.decs[j].example(rng, inst.bus) & mask
+                    try:
+                        wa = inst.decs[j].example(rng, inst.bus)
+                    except AttributeError:          # DecAll.example looks for a Wishbone `adr`
+                        wa = rng.getrandbits(self.addr_w)
+                    a = ((wa << sh) | rng.getrandbits(sh)) & mask
                     if inst.target(a) == [j]:
                         ex.append(a)
                 self.pools.append(ex)
@@ -1041,6 +1046,11 @@ class AxiEnv:
                                 b=self.b_cur[j], idle_b=g(self.b_w), ar_ready=int(rng.random() < p_sready),
                                 r=self.r_cur[j], idle_r=(g(1), g(self.r_w))))
         return tuple(itertools.chain.from_iterable(parts))
+
+
+class NullMonitor:
+    def observe(self, letter, outs):
+        return None
 
 
 class WalkEnv:
